@@ -83,14 +83,21 @@ pub fn run(ctx: &mut Ctx) {
         }
         let alg = [DigestAlgorithm::SHA256, DigestAlgorithm::SHA384, DigestAlgorithm::SHA512][rng.gen_range(0..3)];
         let decoys = rng.gen_bool(0.5);
+        // sessions 2, 6, 10 ...: the "colliding digestIDs" scenario — a third-party document with two elements in each of
+        // the two namespaces (digestIDs 0 and 1 in both), all four requested and permitted in the first round
+        let collide_scenario = si % 4 == 2;
+        if collide_scenario {
+            nsm = [(NS.to_string(), [("family_name".to_string(), Value::Text("Doe".into())), ("given_name".to_string(), Value::Text("Jane".into()))].into_iter().collect()),
+                   (NS_AAMVA.to_string(), [("organ_donor".to_string(), Value::Integer(1.into())), ("sex".to_string(), Value::Integer(2.into()))].into_iter().collect())].into_iter().collect();
+        }
         // one session in three presents a document of a third-party issuer (digestIDs restart at 0 in every namespace)
-        let (mdoc, device_key): (_, SigningKey) = if si % 3 == 2 {
+        let (mdoc, device_key): (_, SigningKey) = if si % 3 == 2 || collide_scenario {
             let dk = SigningKey::random(&mut rng);
             match issue_third_party(&mut rng, &pki, MDL, &nsm, alg, cose_key_of(&dk)) { Some(m) => { ctx.count("document:third-party-issuer"); (m, dk) } None => issue(&mut rng, &pki, MDL, nsm.clone(), alg, decoys) }
         } else { issue(&mut rng, &pki, MDL, nsm.clone(), alg, decoys) };
         let mut mdocs = vec![mdoc];
         let mut keys: BTreeMap<String, SigningKey> = [(MDL.to_string(), device_key)].into_iter().collect();
-        if rng.gen_bool(0.3) {
+        if rng.gen_bool(0.3) || si % 4 == 1 {
             let (m2, k2) = issue(&mut rng, &pki, "org.example.other", [(NS.to_string(), [("x".to_string(), Value::Bool(true))].into_iter().collect())].into_iter().collect(), alg, false);
             keys.insert("org.example.other".into(), k2);
             mdocs.push(m2);
@@ -120,7 +127,9 @@ pub fn run(ctx: &mut Ctx) {
             }
             r
         };
-        let first = if shared_scenario {
+        let first = if collide_scenario {
+            [(NS.to_string(), vec!["family_name".to_string(), "given_name".to_string()]), (NS_AAMVA.to_string(), vec!["organ_donor".to_string(), "sex".to_string()])].into_iter().collect()
+        } else if shared_scenario {
             let in_core = si % 8 == 0;
             [(NS.to_string(), if in_core { vec!["family_name".to_string(), "sex".to_string()] } else { vec!["family_name".to_string()] }),
              (NS_AAMVA.to_string(), if in_core { vec!["organ_donor".to_string()] } else { vec!["organ_donor".to_string(), "sex".to_string()] })].into_iter().collect()
@@ -136,13 +145,30 @@ pub fn run(ctx: &mut Ctx) {
         let Ok(e) = establish(documents_of(mdocs), drms, &first, reg, Default::default()) else { ctx.rng = rng; continue };
         let (mut dev, mut rdr) = (e.dev, e.rdr);
         let ble_equal = e.ble_device == e.ble_reader;
-        let nrounds = rng.gen_range(1..=max_rounds);
+        let nrounds = if si % 4 == 1 { rng.gen_range(2..=max_rounds.max(2)) } else { rng.gen_range(1..=max_rounds) };
         let mut items = e.first_outcome.items_request.clone();
         let mut req = first;
+        let mut foreign_sender = false;
         for round in 0..nrounds {
             if round > 0 {
                 req = gen_req(&mut rng);
-                let Ok(msg) = rdr.new_request(namespaces_of(&req)) else { break };
+                // a holder with two documents, odd sessions: from the second round on the requests are made by the harness
+                // acting as a third-party reader that names BOTH docTypes in one DeviceRequest (this library's reader can
+                // only name the mDL); the real reader object keeps receiving the responses
+                if keys.len() == 2 && si % 2 == 1 { foreign_sender = true; }
+                let msg = if foreign_sender {
+                    let items = |dt: &str, r: &BTreeMap<String, Vec<String>>| Value::Map(vec![(text("itemsRequest"), Value::Tag(24, Box::new(bytes(&crate::runner::to_bytes(&Value::Map(vec![
+                        (text("docType"), text(dt)),
+                        (text("nameSpaces"), Value::Map(r.iter().map(|(ns, ids)| (text(ns), Value::Map(ids.iter().map(|i| (text(i), Value::Bool(false))).collect()))).collect()))]))))))]);
+                    let other_req: BTreeMap<String, Vec<String>> = [(NS.to_string(), vec!["x".to_string()])].into_iter().collect();
+                    let dr = Value::Map(vec![(text("version"), text("1.0")), (text("docRequests"), arr(vec![items(MDL, &req), items("org.example.other", &other_req)]))]);
+                    let (dk, _) = dev_view(&dev);
+                    ctx.count("round:two-docTypes-in-one-request");
+                    session_data(Some(&aes_encrypt(&dk.sk_reader, &iso_iv(false, dk.reader_ctr as u32 + 1), &crate::runner::to_bytes(&dr))), None)
+                } else {
+                    let Ok(msg) = rdr.new_request(namespaces_of(&req)) else { break };
+                    msg
+                };
                 let o = dev.handle_request(&msg);
                 items = o.items_request.clone();
                 if !o.errors.is_empty() || items.is_empty() {
@@ -157,7 +183,7 @@ pub fn run(ctx: &mut Ctx) {
                 let mut p: Vec<String> = ids.iter().filter(|_| rng.gen_bool(0.8)).cloned().collect();
                 if rng.gen_bool(0.3) { p.push("given_name".into()); p.push("organ_donor".into()); }
                 // one consent in four is as wide as it gets: every identifier of the data model under every requested namespace
-                if rng.gen_bool(0.25) || (shared_scenario && round == 0) { p = CORE_IDS.iter().chain(AAMVA_IDS.iter()).map(|s| s.to_string()).collect(); ctx.count("consent:everything"); }
+                if rng.gen_bool(0.25) || ((shared_scenario || collide_scenario) && round == 0) { p = CORE_IDS.iter().chain(AAMVA_IDS.iter()).map(|s| s.to_string()).collect(); ctx.count("consent:everything"); }
                 pm.insert(ns.clone(), p);
             }
             if rng.gen_bool(0.2) { pm.insert("org.example.ns-not-requested".into(), vec!["family_name".into()]); }
@@ -166,7 +192,7 @@ pub fn run(ctx: &mut Ctx) {
             let declined = round + 1 < nrounds && rng.gen_bool(0.25);
             if declined { if rng.gen_bool(0.5) { pm.clear(); } else { pm.remove(NS); } ctx.count("round:declined"); }
             perm.insert(MDL.to_string(), pm);
-            if rng.gen_bool(0.3) { perm.insert("org.example.other".into(), [(NS.to_string(), vec!["x".to_string()])].into_iter().collect()); }
+            if rng.gen_bool(0.3) || foreign_sender { perm.insert("org.example.other".into(), [(NS.to_string(), vec!["x".to_string()])].into_iter().collect()); }
             let permitted: PermittedItems = perm.clone();
             isomdl::presentation::device::SessionManager::prepare_response(&mut dev, &items, permitted);
             let mut guard = 0;
